@@ -285,10 +285,10 @@ def elementwise(run, plan, meta, rng, thorough):
         # through the ModelIsotherm wrapper, in the isotherm's own units: ndarray, list, Series
         entries = sorted(plan["args"][model], key=lambda e: par_key(e["par"]))
         for e in ([entries[rng.randrange(len(entries))]] if not thorough else [entries[rng.randrange(len(entries))] for _ in range(3)]):
-            mdl = build(model, e["par"])
             iso = pygaps.ModelIsotherm(model=build(model, e["par"]), material="verif_mat_c10_elem", adsorbate="nitrogen", temperature=77.344,
                                        pressure_mode="absolute", pressure_unit="bar", loading_basis="molar", loading_unit="mmol",
                                        material_basis="mass", material_unit="g")
+            mdl = iso.model      # the very object the wrapper delegates to (DR/DA take RT from the isotherm's temperature)
             xs = [float(frac(x)) for x in e["xs"]]
             if calc == "loading":
                 ps = xs
